@@ -643,6 +643,13 @@ func (e *Enc) resolveName(sc *Scope, name string) (Val, bool) {
 				switch d := instrs[i].(type) {
 				case *ssa.DebugRef:
 					if id := identName(d); id == name {
+						if al := storedToAlloc(d.X, name); al != nil && !d.IsAddr {
+							// the value just assigned to an address-taken local: the variable's
+							// current value is what its cell holds now
+							if _, defined := fr.vals[al]; defined || fr.lazy {
+								return getv(al, true), true
+							}
+						}
 						if al := loadOfAlloc(d.X); al != nil && !d.IsAddr {
 							// a use of an address-taken local: its current value is what the cell holds now
 							if _, defined := fr.vals[al]; defined || fr.lazy {
@@ -659,7 +666,8 @@ func (e *Enc) resolveName(sc *Scope, name string) (Val, bool) {
 						}
 					}
 				case *ssa.Phi:
-					if d.Comment == name {
+					// `rangeiter` names the hidden counter of the nearest enclosing `for i := range n` (integer range)
+					if d.Comment == name || (name == "rangeiter" && d.Comment == "rangeint.iter") {
 						// Go 1.22 per-iteration loop variables that are captured: the phi holds the
 						// address of the current iteration's copy of the variable
 						isCell := false
@@ -708,6 +716,19 @@ func (e *Enc) resolveName(sc *Scope, name string) (Val, bool) {
 	for _, l := range fn.Locals {
 		if l.Comment == name {
 			return getv(l, true), true
+		}
+	}
+	// a local that escapes to the heap (captured by a function literal): its cell is a plain Alloc
+	// instruction, not listed in fn.Locals
+	for _, bb := range fn.Blocks {
+		for _, ins := range bb.Instrs {
+			if al, ok := ins.(*ssa.Alloc); ok && al.Heap && al.Comment == name {
+				if _, defined := fr.vals[al]; defined || fr.lazy {
+					if sc.blk == nil || al.Block() == sc.blk || al.Block().Dominates(sc.blk) {
+						return getv(al, true), true
+					}
+				}
+			}
 		}
 	}
 	if sc.entry && sc.blk != nil && sc.idx >= 0 && !sc.inOld {
@@ -1393,4 +1414,20 @@ func (e *Enc) pureUF(name string, args []Val, sig *types.Signature) []Val {
 		out = append(out, v)
 	}
 	return out
+}
+
+// storedToAlloc: v is stored (somewhere) into the cell of an address-taken local called name.
+func storedToAlloc(v ssa.Value, name string) *ssa.Alloc {
+	refs := v.Referrers()
+	if refs == nil {
+		return nil
+	}
+	for _, r := range *refs {
+		if st, ok := r.(*ssa.Store); ok && st.Val == v {
+			if al, ok := st.Addr.(*ssa.Alloc); ok && al.Comment == name {
+				return al
+			}
+		}
+	}
+	return nil
 }
